@@ -12,6 +12,7 @@ from mirsym.harness import *
 from mirsym.engine import NONE, SOME, OK, ERR, StubFuture, UNIT
 
 ID = 'C14'
+TECHNIQUE = 'symbolic execution of rustc MIR (path-forking) + z3 SMT queries per path with the file system as a nondeterministic effect log; plus a z3 bounded model check of the protocol extracted from the code (flagged as a model); no native replay'
 CRATES = ['jj-lib']
 NATIVE = None
 NATIVE_CONFIRM = False
